@@ -84,6 +84,16 @@ def decode(text, rep, ext, nexp, time_units):
         dpat = ypat + sep + r"(?P<a>\d{3})"
     else:
         dpat = ypat + sep + r"W(?P<a>\d\d)" + sep + r"(?P<b>\d)"
+    if time_units == 0:
+        # a date, the time designator and a zone, no time of day at all
+        m = re.fullmatch(dpat + "T" + _ZONE, text)
+        if not m:
+            return None
+        g = m.groupdict()
+        y = int(g["y"])
+        date = (y, int(g["a"])) if rep == "ord" else \
+            (y, int(g["a"]), int(g["b"]))
+        return date, None, dec_zone(g["z"])
     tpat = r"(?P<h>\d\d)"
     if time_units >= 2:
         tpat += tsep + r"(?P<mi>\d\d)"
